@@ -45,6 +45,11 @@ case "$mode" in
       "$BIN" -p "$arg" -tier thorough -goos "$os" -repo "$REPO" -verif "$HERE" -no-evidence | grep -E "^(VIOLATION|VIOLATED|UNDECIDED|SUMMARY)" | sed "s/^SUMMARY/SUMMARY goos=$os/"
       [ "${PIPESTATUS[0]}" -ne 0 ] && rc=1
     done
+    # 2b. both-ways controls in scratch copies (informational: alarms here are defects of the checker, not
+    #     violations of the property; they do not change the exit status)
+    if [ "${VERIF_THOROUGH_CONTROLS:-1}" = "1" ]; then
+      python3 "$HERE/robust_eval.py" "$arg" neg seeds 2>/dev/null | grep -E "^(NEG-ALARM|SEED-MISSED|negatives run)" | sed "s/^/CONTROLS /"
+    fi
     # 3. the check itself on the host configuration; writes the evidence file
     VERIF_SELFTEST_LOG="$ST" "$BIN" -p "$arg" -tier thorough -repo "$REPO" -verif "$HERE" || rc=1
     rm -f "$ST"
